@@ -242,6 +242,31 @@ impl<S: ShortGroupSignatureScheme> Scn<S> {
         Scn { mix: mix.clone(), issuers, publics, bundles, sig_ids, schema, credentials, nonce, stmt_ids }
     }
 
+    /// one credential whose schema has the identifier claim at position `pos` (not first): signature statement disclosing
+    /// `name`, revocation statement on `pos`
+    pub fn with_revocation_at(rng: &mut Rng, pos: usize) -> Option<Scn<S>> {
+        let mut cs = vec![
+            ClaimSchema { claim_type: ClaimType::Hashed, label: "name".into(), print_friendly: true, validators: vec![] },
+            ClaimSchema { claim_type: ClaimType::Number, label: "age".into(), print_friendly: true, validators: vec![] },
+            ClaimSchema { claim_type: ClaimType::Scalar, label: "ssn".into(), print_friendly: false, validators: vec![] },
+        ];
+        let pos = pos.min(cs.len());
+        cs.insert(pos, ClaimSchema { claim_type: ClaimType::Revocation, label: "id".into(), print_friendly: false, validators: vec![] });
+        let schema = CredentialSchema::new(Some("pos"), Some("identifier not first"), &[], &cs).ok()?;
+        let (_p, mut issuer) = Issuer::<S>::new(&schema);
+        let mut claims: Vec<ClaimData> = vec![HashedClaim::from("Pos Holder").into(), NumberClaim::from(rng.range(0, 90) as isize).into(), ScalarClaim::from(rng.scalar()).into()];
+        claims.insert(pos, RevocationClaim::from(format!("pos-{}", rng.below(1 << 30))).into());
+        let bundle = issuer.sign_credential(&claims).ok()?;
+        let sig = SignatureStatement { disclosed: ["name".to_string()].into_iter().collect(), id: "sig0".to_string(), issuer: bundle.issuer.clone() };
+        let rev = RevocationStatement { id: "rev0".into(), reference_id: "sig0".into(), accumulator: bundle.issuer.revocation_registry, verification_key: bundle.issuer.revocation_verifying_key, claim: pos };
+        let stmts: Vec<Statements<S>> = vec![sig.into(), rev.into()];
+        let pschema = PresentationSchema::new_with_id(&stmts, &format!("schema-{}", rng.below(1 << 20)));
+        let mut credentials: IndexMap<String, PresentationCredential<S>> = IndexMap::new();
+        credentials.insert("sig0".into(), bundle.credential.clone().into());
+        let mix = Mix { n_creds: 1, n_claims: 4, revocation: true, disclosed: vec![vec!["name".into()]], ..Default::default() };
+        Some(Scn { mix, publics: vec![bundle.issuer.clone()], issuers: vec![issuer], bundles: vec![bundle], sig_ids: vec!["sig0".into()], schema: pschema, credentials, nonce: rng.bytes(16), stmt_ids: vec![("sig0".into(), "signature".into()), ("rev0".into(), "revocation".into())] })
+    }
+
     /// a second commitment statement `com1` next to `com0`: same blinder generator, on claim `claim` of credential 0,
     /// with `com0`'s message generator or a fresh one
     pub fn add_second_commitment(&mut self, rng: &mut Rng, claim: usize, same_message_generator: bool) {
